@@ -33,6 +33,10 @@ FUNCTIONS = [
     "nessai.proposal.analytic.AnalyticProposal.populate",
     "nessai.proposal.analytic.AnalyticProposal.draw",
     "nessai.model.Model.in_bounds",
+    "nessai.utils.sampling.draw_nsphere",
+    "nessai.utils.sampling.draw_surface_nsphere",
+    "nessai.utils.sampling.draw_truncated_gaussian",
+    "nessai.utils.sampling.NDimensionalTruncatedGaussian.sample",
 ]
 BOUNDS = {
     "quick": dict(pool_size_N="1..2", drawsize=2, population_loop_iterations="<=2", dimensions=1, modes=["accumulate_weights on/off", "truncate_log_q off"]),
@@ -44,8 +48,8 @@ ASSUMPTIONS = [
     "the model prior is finite or -inf and a function of the point; np.random.rand returns values in [0,1)",
     "the latent draw is an arbitrary array (the radial truncation of the latent samplers is not decided here)",
 ]
-OUTSIDE = ["that the pool is distributed as the prior restricted to the contour (distributional)", "termination of the population loop (paths needing more iterations than the bound are counted as out-of-bound)",
-           "augmented / gravitational-wave / clustering proposal overrides", "the radial latent samplers (gammaincinv / chi)"]
+OUTSIDE = ["latent dimensions other than 2 for the radial samplers", "that the pool is distributed as the prior restricted to the contour (distributional)", "termination of the population loop (paths needing more iterations than the bound are counted as out-of-bound)",
+           "augmented / gravitational-wave / clustering proposal overrides", "the distribution of the radial latent samplers (only the radius bound is decided, relative to: chi ppf/cdf inverse and monotone, gammaincinv(d/2, chi.cdf(y)) = y^2/2)"]
 
 PARALLEL_UNITS = True
 MODS = ["nessai.proposal.flowproposal", "nessai.proposal.rejection", "nessai.proposal.analytic", "nessai.proposal.base", "nessai.model", "nessai.livepoint", "nessai.utils.structures"]
@@ -288,6 +292,102 @@ def make_analytic(N):
     return body
 
 
+class _ChiStub:
+    """scipy.stats.chi for the radial latent samplers: cdf / ppf as uninterpreted monotone functions with ppf(cdf(y)) = y."""
+
+    def __init__(self, ctx, df=None):
+        self.ctx, self.df = ctx, df
+        self.known = []
+
+    def __call__(self, df):
+        return _ChiStub(self.ctx, df)
+
+    def cdf(self, y, df=None):
+        ctx = self.ctx
+        u = ctx.uf("chi_cdf", y)
+        ctx.axiom((u >= 0) & (u <= 1))
+        ctx.axiom(ctx.uf("chi_ppf", u) == y)            # ppf(cdf(y)) = y
+        # gammaincinv(d/2, chi.cdf(y)) = y^2 / 2  (chi.cdf(y) = P(d/2, y^2/2))
+        ctx.axiom(ctx.uf("gammaincinv", u) * 2 == y * y)
+        self.known.append(u)
+        _KNOWN_U.append(u)
+        return u
+
+    def ppf(self, u, df=None):
+        ctx = self.ctx
+        out = np.empty(len(u), dtype=object)
+        for i in range(len(u)):
+            p = ctx.uf("chi_ppf", u[i])
+            ctx.axiom(p >= 0)
+            for v in _KNOWN_U:                            # monotone on the ground instances
+                ctx.axiom(~(u[i] <= v) | (p <= ctx.uf("chi_ppf", v)))
+            out[i] = p
+        return out
+
+
+_KNOWN_U = []
+
+
+def _gammaincinv_stub(ctx):
+    def f(a, u):
+        out = np.empty(len(u), dtype=object)
+        for i in range(len(u)):
+            g = ctx.uf("gammaincinv", u[i])
+            ctx.axiom(g >= 0)
+            for v in _KNOWN_U:
+                ctx.axiom(~(u[i] <= v) | (g <= ctx.uf("gammaincinv", v)))
+            out[i] = g
+        return out
+    return f
+
+
+def make_latent_radius(kind, d):
+    """No latent point lies outside the radius r * fuzz for the radially truncated latent priors."""
+    def body(ctx):
+        import nessai.utils.sampling as smp
+        del _KNOWN_U[:]
+        r = ctx.real("r", 0, 5)
+        fuzz = ctx.real("fuzz", 1, 2)
+        ctx.assume(r > 0)
+        saved = (smp.stats, smp.gammaincinv)
+        if ctx.mode == "sym":
+            _symnp.symrandom.reset()
+
+            def randn(*shape):
+                out = np.empty(shape, dtype=object)
+                flat = out.reshape(-1)
+                tot = 0
+                for i in range(flat.size):
+                    flat[i] = ctx.real(ctx.fresh("g"), -6, 6)
+                    tot = tot + flat[i] * flat[i]
+                ctx.assume(tot > 0)     # a normal draw is the zero vector with probability zero
+                return out
+            _symnp.symrandom.handlers["randn"] = randn
+            smp.stats = type("S", (), {"chi": _ChiStub(ctx)})()
+            smp.gammaincinv = _gammaincinv_stub(ctx)
+        try:
+            if kind == "nsphere":
+                z = smp.draw_nsphere(d, r=r, N=1, fuzz=fuzz)
+            elif kind == "truncated_gaussian":
+                z = smp.draw_truncated_gaussian(d, r, N=1, fuzz=fuzz)
+            else:
+                z = smp.NDimensionalTruncatedGaussian(d, r, fuzz=fuzz).sample(1)
+        finally:
+            smp.stats, smp.gammaincinv = saved
+            if ctx.mode == "sym":
+                _symnp.symrandom.reset()
+        ctx.prove(z.shape == (1, d), "one latent point of the right dimension")
+        n2 = 0
+        for k in range(d):
+            n2 = n2 + z[0, k] * z[0, k]
+        lim = r * fuzz
+        if getattr(ctx, "mutant", None) == "tight":
+            lim = lim * 0.5
+        ctx.prove_le(n2, lim * lim * (1 + 1e-9 if ctx.mode == "conc" else 1), "no latent point lies outside the radius r * fuzz")
+        ctx.cover("end")
+    return body
+
+
 def units(tier):
     us = []
     q = tier == "quick"
@@ -298,6 +398,10 @@ def units(tier):
                 continue
             us.append(Unit(f"flow_populate[N={N},drawsize=2,accumulate={acc}]", make_flow_populate(N, 2, acc, 2 if q else 3), MODS, opts, expect_cover=["end"],
                            mutants=["size"] if (N, acc) == (1, False) else [], twin_runs=20, witness_every=10, setup=setup, nproc=1, time_budget_s=900))
+    nl = dict(exp_axioms="signs", fresh=True, timeout_ms=60000)
+    for kind in ("nsphere", "truncated_gaussian", "class"):
+        us.append(Unit(f"latent_radius[{kind},d=2]", make_latent_radius(kind, 2), MODS + ["nessai.utils.sampling"], nl, expect_cover=["end"],
+                       mutants=["tight"] if kind == "nsphere" else [], twin_runs=30, witness_every=1, nproc=1, time_budget_s=600))
     for N in ((1, 2) if q else (1, 2, 3)):
         us.append(Unit(f"rejection_populate[N={N}]", make_rejection_populate(N), MODS, opts, expect_cover=["end"], twin_runs=20, witness_every=5, setup=setup, nproc=1))
         us.append(Unit(f"analytic[N={N}]", make_analytic(N), MODS, opts, expect_cover=["end"], twin_runs=10, witness_every=3, setup=setup, nproc=1))
